@@ -41,3 +41,10 @@ Theorem C14_rpc_server_internal_steps_terminate : forall strict v l v' em,
   vinv0 strict v = true -> In l v_internal -> vstep strict v l = Some (v', em) -> v_measure v' < v_measure v.
 Proof. exact rpc_server_internal_steps_terminate. Qed.
 Print Assumptions C14_rpc_server_internal_steps_terminate.
+From GT Require Import MultiRpc MultiRpcProofs.
+Theorem C14_multi_tables_clean : forall strict n ls m i,
+  mrun strict (m_init n) ls = Some m -> i < n ->
+  (k_done (p_k (get m i)) <> None -> c_quiet (p_k (get m i)) = true -> k_tab (p_k (get m i)) = false) /\
+  (v_closed (p_v (get m i)) = true -> v_tab (p_v (get m i)) = false).
+Proof. exact multi_tables_clean. Qed.
+Print Assumptions C14_multi_tables_clean.
